@@ -878,6 +878,53 @@ variable {C : Type} [Add C] [Sub C] [Mul C] [Neg C]
     return u
 
 
+def gen_ndscipy(status, baseline):
+    u = Unit('NdScipy.lean', '''/- GENERATED by translator/py2lean.py from src/numdifftools/nd_scipy.py — do not edit -/
+import Ndt.Gen.Prelude
+namespace Ndt.Gen
+/-- the `method` strings of scipy.optimize._numdiff.approx_derivative -/
+inductive ScipyMethod | cs | threePoint | twoPoint
+deriving DecidableEq, Repr
+''')
+    key = 'NdScipy.method_map'
+    try:
+        mod = parse('nd_scipy.py')
+        cls = find_class(mod, 'Jacobian')
+        call = funcs_of(cls)['__call__']
+        table = None
+        for node in ast.walk(call):
+            if isinstance(node, ast.Subscript) and isinstance(node.value, ast.Call) and getattr(node.value.func, 'id', '') == 'dict' \
+                    and ast.unparse(node.slice) == 'self.method':
+                table = {k.arg: k.value.value for k in node.value.keywords}
+        if table is None:
+            raise Unsupported('method table not found')
+        names = {'cs': '.cs', '3-point': '.threePoint', '2-point': '.twoPoint'}
+        alts = []
+        for m in METHODS:
+            if m in table:
+                if table[m] not in names:
+                    raise Unsupported('unknown scipy method %r' % table[m])
+                alts.append('| .%s => some %s' % (m, names[table[m]]))
+            else:
+                alts.append('| .%s => none' % m)
+        u.add(key, '/-- `dict(...)[self.method]`; `none` = KeyError -/\ndef ndScipyMethod (m : Method) : Option ScipyMethod :=\n  match m with '
+              + ' '.join(alts) + ' | .other => none')
+        src = flat(ast.unparse(call))
+        for needle in ('x = np.atleast_1d(x)', "options = dict(method=method, rel_step=self.step, args=args, kwargs=kwds, bounds=self.bounds, sparsity=self.sparsity)",
+                       'grad = approx_derivative(self.fun, x, **options)'):
+            if needle not in src:
+                raise Unsupported('nd_scipy.Jacobian.__call__ changed: %r not found' % needle)
+        gsrc = flat(ast.unparse(funcs_of(find_class(mod, 'Gradient'))['__call__']))
+        if 'return super(Gradient, self).__call__(np.atleast_1d(x).ravel(), *args, **kwds).squeeze()' not in gsrc:
+            raise Unsupported('nd_scipy.Gradient.__call__ changed')
+        status[key] = {'ok': True}
+    except (Unsupported, KeyError) as ex:
+        status[key] = {'ok': False, 'error': str(ex)}
+        if key in baseline:
+            u.add(key, baseline[key]['text'])
+    return u
+
+
 PRELUDE = '''/- GENERATED by translator/py2lean.py — do not edit -/
 namespace Ndt.Gen
 /-- the closed universe of method names (anything else is `other`) -/
@@ -911,7 +958,7 @@ def main(update_baseline=False):
     status = {}
     units = []
     del EXTRA_UNITS[:]
-    for gen in (gen_logrule, gen_steps, gen_guards, gen_bicomplex):
+    for gen in (gen_logrule, gen_steps, gen_guards, gen_bicomplex, gen_ndscipy):
         try:
             units.append(gen(status, baseline))
         except Exception as ex:     # whole-unit failure (class missing, syntax error ...)
